@@ -1088,6 +1088,93 @@ pub fn exh_case(mut idx: u64) -> (String, Cfg, String) {
 }
 
 // ---------------------------------------------------------------------------------------------
+// G-nest: every container position x every payload with layout logic of its own x a mark in front
+// of the container element.  Probes pairs of sites that each look fine alone: what a construct does
+// with comments, blank lines or its own compact layouts, seen from inside every position an
+// expression can stand in — with nothing, a comment, or an `@typstyle off` directive directly in
+// front of the element that holds it (a directive marks that element, whether or not the printer
+// treats elements of that kind verbatim, and the attribute pass does not descend below a mark).
+// `◊` = the payload, `§` = the mark.
+// ---------------------------------------------------------------------------------------------
+pub const NEST_CONTAINERS: &[&str] = &[
+    "#f(§◊)\n",
+    "#f(§key: ◊)\n",
+    "#f(1, §..◊)\n",
+    "#f(g(§h: ◊), 2)\n",
+    "#(§k: ◊)\n",
+    "#(§\"k\": ◊)\n",
+    "#(§◊, 2)\n",
+    "#(1, §..◊)\n",
+    "#(§◊,)\n",
+    "#((§◊))\n",
+    "#let x = §◊\n",
+    "#let f(a, §b: ◊) = a\n",
+    "#let (a, §b: ◊) = d\n",
+    "#{\n  §◊\n}\n",
+    "#{\n  let y = §◊\n  y\n}\n",
+    "#set text(§fill: ◊)\n",
+    "#show: §◊\n",
+    "#show heading: it => §◊\n",
+    "#let g = x => §◊\n",
+    "#if c { §◊ } else { 2 }\n",
+    "#for x in §◊ { x }\n",
+    "#context §◊\n",
+    "text §#◊ more\n",
+    "- item §#◊\n",
+    "/ Term: §#◊\n",
+    "= Heading §#◊\n",
+    "#[§#◊]\n",
+    "#f[text §#◊]\n",
+    "*strong §#◊*\n",
+    "$ f(§#◊) + g(x, §#◊) $\n",
+    "$ §#◊ $\n",
+];
+
+pub const NEST_PAYLOADS: &[&str] = &[
+    "x",
+    "table(columns: 2, [a], /* c */ [b], // lc\n [c], [d])",
+    "table(\n  columns: 2,\n  // header\n  [a], [b],\n  /* row */ [c], [d],\n)",
+    "grid(columns: (1fr, 2fr), [a], [b] /* t */)",
+    "table(columns: 2, [a],   [b],\n\n\n [c],[d])",
+    "f(a, /* c */ b, // lc\n c)",
+    "f(  a  ,b )[ t ]",
+    "(1, /* c */ 2, // lc\n 3)",
+    "(  1,2  ,3)",
+    "(a: 1, /* c */ b: 2, // lc\n c: 3)",
+    "a.b /* c */ .c(1) // lc\n .d()",
+    "a.b.c(  1 ).d(\n 2\n)",
+    "a + /* c */ b // lc\n + c",
+    "(x, /* c */ y) => x // lc\n + y",
+    "{\n  let a = 1 // lc\n\n\n  /* c */ a\n}",
+    "[text /* c */ more // lc\n next]",
+    "if a { 1 /* c */ } else { // lc\n 2 }",
+    "```typ\nraw  text\n  more\n```",
+    "\"multi\n   line\"",
+    "$ a /* c */ + b // lc\n $",
+    "{\n  import \"m.typ\": b, /* c */ a // lc\n\n  b\n}",
+    "not /* c */ a",
+    "f(/* @typstyle off */ g(  1,2 ), (  3,4 ))",
+];
+
+pub const NEST_MARKS: &[&str] = &["", "/* c */ ", "// @typstyle off\n", "/* @typstyle off */ ", "// lc\n"];
+
+pub fn nest_universe() -> u64 {
+    (NEST_CONTAINERS.len() * NEST_PAYLOADS.len() * NEST_MARKS.len() * EXH_CFGS) as u64
+}
+
+pub fn nest_case(idx: u64) -> (String, Cfg, String) {
+    let k = (idx % EXH_CFGS as u64) as usize;
+    let rest = idx / EXH_CFGS as u64;
+    let m = (rest % NEST_MARKS.len() as u64) as usize;
+    let rest = rest / NEST_MARKS.len() as u64;
+    let p = (rest % NEST_PAYLOADS.len() as u64) as usize;
+    let c = ((rest / NEST_PAYLOADS.len() as u64) as usize) % NEST_CONTAINERS.len();
+    let s = NEST_CONTAINERS[c].replace('§', NEST_MARKS[m]).replace('◊', NEST_PAYLOADS[p]);
+    let plain_len = NEST_CONTAINERS[c].len() + NEST_PAYLOADS[p].len();
+    (s, exh_cfg(k, plain_len), format!("container{} payload{} mark{} cfg{}", c, p, m, k))
+}
+
+// ---------------------------------------------------------------------------------------------
 // G-mal: malformed and hostile inputs (C05, C13 refusal, C16)
 // ---------------------------------------------------------------------------------------------
 
